@@ -52,6 +52,7 @@ fn matcher(ins: &[POp], outs: &[PathOp], i: usize, o: usize, cursor: Option<P2>,
             Some(PathOp::Close) => matcher(ins, outs, i + 1, o + 1, start, start, tol, maxdev),
             other => Err(Fail { clause: "close-not-preserved", detail: format!("input op {} is Close but output op {} is {:?}", i, o, other), depth: i }),
         },
+        POp::A(..) => Err(Fail { clause: "unsupported-op", detail: "arc ops are not part of the C16 alphabet".into(), depth: i }),
         POp::Q(..) | POp::C(..) => {
             let (c1, end, curve, st) = match ins[i] {
                 POp::Q(cx, cy, x, y) => {
